@@ -1477,6 +1477,9 @@ class ExplicitTag(StandardEncodeMixin, StandardDecodeMixin, Type):
         self.inner = inner
 
     def set_default(self, value):
+        # The inner type may be shared with other members referring
+        # to the same type.
+        self.inner = copy(self.inner)
         self.inner.set_default(value)
 
     def get_default(self):
